@@ -593,6 +593,10 @@ class Interp:
                 raise RaiseEx("ZeroDivisionError", node)
             except TypeError:
                 raise RaiseEx("TypeError", node)
+            except OverflowError:
+                raise RaiseEx("OverflowError", node)
+            except ValueError:
+                raise RaiseEx("ValueError", node)
         if isinstance(a, list) and isinstance(b, list) and op is ast.Add:
             return a + b
         if isinstance(a, list) and isinstance(b, int) and op is ast.Mult:
@@ -1448,6 +1452,9 @@ class Interp:
             if len(recv.members) == 1:
                 return next(iter(mapped))
             return Ch("%s.%s" % (recv.name, name), mapped)
+        if isinstance(recv, Ch) and name in ("islower", "isupper") and recv.members is None:
+            # a complement class (everything but finitely many characters) has members of both kinds
+            return self.fork("%s.%s()" % (recv.name, name))
         if isinstance(recv, Ch) and name in ("lower", "upper") and recv.members is None:
             E = recv.excluded
             if all(c.upper() in E and c.lower() in E for c in E):
@@ -1643,15 +1650,28 @@ class Interp:
         if name in ("ext:copy.deepcopy", "ext:copy.copy", "deepcopy") and args:
             deep = not name.endswith(".copy")
 
+            memo = {}
+
             def cp(v, top=True):
+                if id(v) in memo:
+                    return memo[id(v)]
                 if isinstance(v, list):
-                    return [cp(x, False) if deep else x for x in v]
+                    r = memo[id(v)] = []
+                    r.extend(cp(x, False) if deep else x for x in v)
+                    return r
                 if isinstance(v, dict):
-                    return {k: (cp(x, False) if deep else x) for k, x in v.items()}
+                    r = memo[id(v)] = {}
+                    r.update({k: (cp(x, False) if deep else x) for k, x in v.items()})
+                    return r
                 if isinstance(v, set):
                     return set(v)
                 if isinstance(v, tuple):
                     return tuple(cp(x, False) if deep else x for x in v)
+                if isinstance(v, AObj) and (top or deep):
+                    # a new object of the same class; its attributes are copied too for a deep copy
+                    r = memo[id(v)] = AObj(v.cls, {}, name=v.name)
+                    r.attrs.update({k: (cp(x, False) if deep else x) for k, x in v.attrs.items()})
+                    return r
                 return v
             return cp(args[0])
         if name == "len":
@@ -1662,6 +1682,8 @@ class Interp:
                 return v.a_len(self)
             if isinstance(v, AObj) and v.cls is not None and self.repo.find_method(v.cls, "__len__") is not None:
                 return self.call_method(v, "__len__", [], {}, node)
+            if isinstance(v, AObj) and v.cls is not None and not self.repo.find_method(v.cls, "__getattr__"):
+                raise RaiseEx("TypeError", node)  # object of this class has no len()
             if isinstance(v, (list, tuple, dict, str, bytes, bytearray, set, frozenset)):
                 return len(v)
             if isinstance(v, Ch):
